@@ -548,6 +548,15 @@ class Builder:
         return ir.Pseudo(name, [self.reg(rd), self.reg(rs)])
 
     def li_value(self):
+        v = self._li_value()
+        if isinstance(v, ir.Lit) and self.chance(0.15):
+            # the value written as arithmetic: `li t0, 1 << 20`, `li t0, 4 * 1024`, `li t0, 0 - 5000` (the size of the li depends on
+            # the VALUE, not on how its first token looks)
+            self.tags.add('expr_operand')
+            return self.expr_for(v.value)
+        return v
+
+    def _li_value(self):
         k = self.i(0, 9)
         if k <= 2:
             return ir.Lit(self.edgy(-2060, 2060, extra=(-2048, 2047, -2049, 2048, 31, 32, -32, -33)))
